@@ -490,10 +490,12 @@ PROPS['C19'] = dict(
 
 PROPS['C18'] = dict(
     confirm_any=True,  # schedules are not reproducible: a replay runs the workload 20 times, one failing replay confirms
-    units=[dict(target=T('h_threads', kind='tsan'), quick=dict(args=['--repeats', '3', '--no-shrink'], scale=0.6, shards=6, timeout=600), thorough=dict(args=['--repeats', '5', '--no-shrink'], scale=3.0, shards=16, timeout=3600))],
+    units=[dict(target=T('h_threads', kind='tsan'), quick=dict(args=['--repeats', '3', '--no-shrink'], scale=0.6, shards=6, timeout=600), thorough=dict(args=['--repeats', '5', '--no-shrink'], scale=3.0, shards=16, timeout=3600)),
+           dict(target=T('h_threads_q', kind='tsan'), quick=dict(args=['--no-shrink'], scale=1.0, shards=4, timeout=600), thorough=dict(args=['--no-shrink'], scale=6.0, shards=16, timeout=3600))],
     rule=('generated multi-thread workloads: a shared CONST pool (one grid, 3..6 windows each materialised as splines of orders 0..3, their supports, a BSplineGenerator, two compound operator expressions, a SplineOperator, LinearForm, BilinearForm, ScalarProduct objects) + per-thread op lists (4..24 ops from 16 kinds: evaluate, copy+destroy, copy-assign, a+b, a-b, a*b, '
           'apply shared operator, apply shared spline operator, linear form, bilinear form (incl. copying a shared SplineOperator), generateBSplines on the shared generator, predicates, linearCombination over the shared vector, support union/intersection/copy, numerical integration, grid copy, a 1500-point evaluation sweep of ONE shared spline from thread-specific starts (values compared bitwise, which also catches state kept in relaxed atomics that the race detector cannot see), mixing shared splines (as LEFT operand) with splines on a logically equal grid held in a distinct object, mixing them with splines of a generator each thread builds itself from the same points, operator / quadrature template instances the tests never use: X<4..6>, Dx<3>, Dx<5>, integrate<2>, integrate<5>) for 2/3/4/8/16 threads with generated yield/spin patterns; all threads start behind one barrier; every workload is executed 3 (quick) or 5 (thorough) times, threads FIRST and the sequential reference afterwards (a sequential warm-up would hide lazily initialised state); every process (6 in quick, 16 in thorough) begins with a cold-start workload in which four threads run every op kind at once. '
-          'Oracle: ThreadSanitizer with halt_on_error (any report is a violation) and bitwise equality of every thread\'s result vector with a sequential run of the same op list. Non-trivial: >= 2 threads and >= 4 ops. Distinct = distinct workload text.'),
+          'Oracle: ThreadSanitizer with halt_on_error (any report is a violation) and bitwise equality of every thread\'s result vector with a sequential run of the same op list. Non-trivial: >= 2 threads and >= 4 ops. Distinct = distinct workload text. '
+          'Second unit (h_threads_q.cpp): the same idea with a CLASS-TYPE scalar (the exact archetype: owns heap storage, non-trivial copy and destructor) - 2..8 threads run 12 op kinds (forms, evaluation, arithmetic, operator application incl. spline factor, generation, linearCombination, in-place ops on private copies) 5..40 rounds on a shared const pool, half of the threads in the same order so that the same kernels run at the same time; every exact result must equal the sequential run made afterwards; ThreadSanitizer sees the scalar\'s own (inline) operators.'),
     technique='rapidcheck-generated multi-thread workloads executed under ThreadSanitizer (happens-before race detection) with a sequential-run differential',
     engine='rapidcheck + ThreadSanitizer',
     level_text='Schedules are SAMPLED, not enumerated. TSan reports an unsynchronised access pair whenever both accesses are executed, largely independent of the interleaving, which is what makes hidden caches / lazily filled tables / static scratch buffers detectable; a race that needs a specific window and is invisible to TSan would be missed. Claim: no race on any executed access pair in the generated workloads, results deterministic.',
